@@ -509,9 +509,9 @@ func c27Ops(re *syntax.Regexp, into map[string]bool) {
 }
 
 type c27Engines struct {
-	orig, printed, optStd, optZoekt *regexp.Regexp
+	orig, printed, optStd, optZoekt                *regexp.Regexp
 	origStdText, printedText, optStdText, optZText string
-	ops                               map[string]bool
+	ops                                            map[string]bool
 }
 
 func c27Span(loc []int) string {
